@@ -180,33 +180,61 @@ def r4(ctx):
 def r5(ctx):
     c = ctx.crate
     fn = ctx.fn("network::Network::_forward")
-    loops = [x for x in walk(fn["body"]) if x.get("k") == "for"]
+    from .. import e5
+    E = e5.Exec(c, fn)
+    paths = [p for p in E.run_fn() if p.exit is None or p.exit[0] == "return"]
+    if len(paths) != 1:
+        raise Unestablished("_forward: expected one non-panicking path through the function, found %d" % len(paths), c.loc(fn))
+    ret = paths[0].val if paths[0].exit is None else paths[0].exit[1]
+    roles = [e5.root_name(x) for x in ret[1]] if isinstance(ret, tuple) and ret and ret[0] == "tup" else []
+    ctx.check("R02.5", "returns-four-records", len(roles) == 4 and all(roles) and len(set(roles)) == 4, "return-value:" + short(e5.show(ret), 80), c.loc(fn),
+              "(preactivated, activated, maxpools, feedbacks) are the four vectors filled by the layer walk")
+    if len(roles) != 4 or not all(roles):
+        return
+    pre_n, act_n, max_n, fb_n = roles
+    loops = [e for e in paths[0].eff if e[0] == "loop" and E.loop_summaries[e[1]].get("kind") == "for"]
     if len(loops) != 1:
-        raise Unestablished("_forward: expected one layer loop", c.loc(fn))
-    lp = loops[0]
-    it = pretty(strip(lp["iter"]))
-    ctx.check("R02.5", "layer-range-in-order", it in ("self.layers[std::ops::Range { start: from, end: to }]",), "layer-walk:" + short(it, 60), c.loc(fn, lp), "for layer in &self.layers[from..to]")
-    body = top_stmts_of(lp["body"])
-    xl = [s_ for s_ in body if s_.get("k") == "let" and s_["pat"].get("k") == "bind"]
-    okx = bool(xl) and pretty(strip(xl[0]["init"])) == "activated.last().unwrap()"
-    ctx.check("R02.5", "input-is-last-activated", okx, "layer-input:" + (short(pretty(xl[0]["init"]), 50) if xl else "?"), c.loc(fn, lp), "x = activated.last().unwrap()")
-    xh = xl[0]["pat"]["hid"] if xl else None
-    ms = [x for x in walk(lp["body"]) if x.get("k") == "match"]
-    for arm in ms[0]["arms"]:
-        vp, binds = e4.arm_variant(arm)
-        kind = vp.split("::")[-1]
-        fw = [y for y in walk(arm["body"]) if y.get("k") == "mcall" and y["name"] == "forward"]
-        okf = len(fw) == 1 and e4.local_hid(fw[0]["args"][0]) == xh and binds and e4.local_hid(fw[0]["recv"]) == binds[0][1]
-        lt = [s_ for s_ in walk(arm["body"]) if s_.get("k") == "let" and s_["init"] is not None and strip(s_["init"]) is (fw[0] if fw else None)]
-        okp = False
-        if lt:
-            pb = pat_binds(lt[0]["pat"])
-            pushes = {}
-            for y in walk(arm["body"]):
-                if y.get("k") == "mcall" and y["name"] == "push" and strip(y["recv"]).get("k") == "local":
-                    pushes[strip(y["recv"])["name"]] = e4.local_hid(strip(y["args"][0])) if strip(y["args"][0]).get("k") == "local" else pretty(y["args"][0])
-            okp = len(pb) >= 2 and pushes.get("preactivated") == pb[0][1] and pushes.get("activated") == pb[1][1]
-        ctx.check("R02.5", "forward-and-record:" + kind, okf and okp, "arm:" + kind, c.loc(fn, arm["body"]), "(pre, post) = layer.forward(x); push pre, post")
+        raise Unestablished("_forward: expected one layer loop, found %d" % len(loops), c.loc(fn))
+    lid, it = loops[0][1], loops[0][2]
+    lnode = E.loop_summaries[lid]["node"]
+    ok_it = (isinstance(it, tuple) and it[0] == "idx" and it[1] == ("field", ("p", "self"), "layers") and e5.range_of(it[2]) is not None
+             and e5.range_of(it[2]) == (("p", fn["params"][2]["name"] if fn["params"][2].get("k") == "bind" else "?"), ("p", fn["params"][3]["name"] if fn["params"][3].get("k") == "bind" else "?")))
+    ctx.check("R02.5", "layer-range-in-order", ok_it, "layer-walk:" + short(e5.show(it), 60), c.loc(fn, lnode), "for layer in &self.layers[from..to]")
+    elem = ("elem", it, lid)
+    body = E.loop_summaries[lid]["paths"]
+    X = None
+    layer_adt = c.adts["network::Layer"]
+    for v in layer_adt["variants"]:
+        vp = "network::Layer::" + v["name"]
+        kind = v["name"]
+        mine = [p for p in body if e5.variant_of(p).get(elem) == vp]
+        where = c.loc(fn, lnode)
+        if len(mine) != 1 or mine[0].exit is not None:
+            ctx.bad("R02.5", "forward-and-record:" + kind, "arm:%s:paths=%d" % (kind, len(mine)), where,
+                    "expected exactly one falling-through path for %s layers, found %d (exits %s)" % (kind, len(mine), [p.exit for p in mine]))
+            continue
+        p = mine[0]
+        payload_ty = v["fields"][0]["ty"] if v["fields"] else "?"
+        fwd = e5.find_terms(tuple(p.eff), lambda t: t[0] == "call" and t[1] == payload_ty + "::forward")
+        F = fwd[0] if fwd else None
+        okf = F is not None and all(f == F for f in fwd) and len(F[2]) == 2 and F[2][0] == ("payload", elem, vp, 0)
+        xin = F[2][1] if okf else None
+        a1 = e5.is_call(xin, "unwrap", 1) or e5.is_call(xin, "expect") if xin is not None else None
+        a2 = e5.is_call(a1[0], "last", 1) if a1 else None
+        okx = bool(a2) and a2[0] == ("loopin", act_n, lid)
+        want_max = ("var", "Option::None", ()) if kind not in ("Maxpool", "Feedback") else ("var", "Option::Some", (e5.mk_proj(F, 2),))
+        want_fb = [] if kind != "Feedback" else [("vec", (e5.mk_proj(F, 3), e5.mk_proj(F, 4)))]
+        got = {n_: e5.pushes_to(p, n_) for n_ in roles}
+        okp = okf and got[pre_n] == [e5.mk_proj(F, 0)] and got[act_n] == [e5.mk_proj(F, 1)] and got[max_n] == [want_max] and got[fb_n] == want_fb
+        others = [e for e in p.eff if not (e[0] == "push" and e[1][0] == "local" and e[1][1] in roles)]
+        ctx.check("R02.5", "forward-and-record:" + kind, okf and okx and okp and not others,
+                  "arm:%s:%s" % (kind, short(";".join("%s<-%s" % (k_, ",".join(e5.show(t_, 3) for t_ in v_)) for k_, v_ in sorted(got.items())), 140)), where,
+                  "(pre, post[, max]) = %s::forward(layer, activated.last()); pushed to the three records" % payload_ty,
+                  "for a %s layer the walk records %s (other effects: %s); expected pre/post/max of %s::forward applied to the last activation recorded so far"
+                  % (kind, {k_: [e5.show(t_, 2) for t_ in v_] for k_, v_ in got.items()}, [e5.show(e_, 2) for e_ in others], payload_ty))
+        if okx:
+            X = xin
+    ctx.check("R02.5", "input-is-last-activated", X is not None, "layer-input", c.loc(fn, lnode), "x = activated.last().unwrap() at the start of each step")
     fn = ctx.fn("network::Network::predict")
     t = pretty(fn["body"])
     ok = "let (_, outputs, _, _) = self.forward(input)" in t and "outputs.last().unwrap().clone()" in t
